@@ -6,7 +6,6 @@
 package main
 
 import (
-	"crypto/sha256"
 	"encoding/json"
 	"errors"
 	"fmt"
@@ -181,9 +180,12 @@ type node struct {
 	stuck  bool
 }
 
-func key(st *fakeconn.State, done *completed) [32]byte {
-	return sha256.Sum256([]byte(st.Canon() + "\n--done--\n" + done.String()))
+type skey struct {
+	fp   [2]uint64
+	done string
 }
+
+func key(st *fakeconn.State, done *completed) skey { return skey{st.Fingerprint(), done.String()} }
 
 // finding is an oracle verdict produced while evaluating one run.
 type finding struct {
@@ -397,7 +399,7 @@ type explorer struct {
 	r        *ev.Run
 	cfg      ctrlrun.Config
 	nodes    []*node
-	index    map[[32]byte]int
+	index    map[skey]int
 	final    *fakeconn.State
 	maxFault int
 	workers  int
@@ -451,7 +453,7 @@ func (x *explorer) add(st *fakeconn.State, done *completed, parent int, plan []f
 	n := &node{id: len(x.nodes), st: st, done: done, parent: parent, plan: plan, faults: faults}
 	x.nodes = append(x.nodes, n)
 	x.index[k] = n.id
-	x.r.Distinct(x.cfg.Name + fmt.Sprintf("/%x", k[:8]))
+	x.r.Distinct(fmt.Sprintf("%s/%x%x/%s", x.cfg.Name, k.fp[0], k.fp[1], k.done))
 	return n.id, true
 }
 
@@ -497,7 +499,7 @@ func (x *explorer) explore() {
 	}
 	r.Sample(map[string]any{"mode": x.cfg.Name, "clean_run_statements": len(clean.proc.Log), "scripts": clean.scripts,
 		"objects": len(clean.st.TableNames(dbName))})
-	x.index = map[[32]byte]int{}
+	x.index = map[skey]int{}
 	x.add(empty, newCompleted(), -1, nil, 0)
 	frontier := []int{0}
 	for len(frontier) > 0 {
@@ -559,7 +561,7 @@ func (x *explorer) explore() {
 					x.report(nid, nil, true, finding{"uptodate_run_fails:" + f.Class, f.What})
 				} else if up.scripts != 0 {
 					x.report(nid, nil, true, finding{"uptodate_run_executes_scripts", fmt.Sprintf("initialisation of an up-to-date database executed %d migration script(s)", up.scripts)})
-				} else if up.st.Canon() != ra.st.Canon() {
+				} else if up.st.Fingerprint() != ra.st.Fingerprint() {
 					x.report(nid, nil, true, finding{"uptodate_run_changes_state", "initialisation of an up-to-date database changed the catalogue: " + fakeconn.DiffSchema(ra.st, up.st)})
 				}
 			}
